@@ -247,6 +247,216 @@ func init() {
 			x.defNat("cleanupGoroutinesStarted", uint64(starts))
 		}
 
+		// --- the call path keeps no shared state ------------------------------------------------------------
+		// Interceptor (Stream, lookup, getDestinationHostFromMetadata), director closure and the unexported
+		// helpers they call: every use of a package-level variable (a method called on it, a store into it, its
+		// value read) and every store through the receiver or into a variable captured by the director's
+		// closure. What the interceptor decides for a call must reach the director in the call's own context.
+		{
+			pkgVars := map[string]bool{}
+			for _, f := range x.files(dir) {
+				for _, d := range f.Decls {
+					gd, ok := d.(*ast.GenDecl)
+					if !ok || gd.Tok != token.VAR {
+						continue
+					}
+					for _, sp := range gd.Specs {
+						if vs, ok := sp.(*ast.ValueSpec); ok {
+							for _, n := range vs.Names {
+								pkgVars[n.Name] = true
+							}
+						}
+					}
+				}
+			}
+			var shared []string
+			seenFn := map[string]bool{}
+			var visit func(where string, body ast.Node, recv string, captured map[string]bool, params map[string]bool)
+			rootIdent := func(e ast.Expr) *ast.Ident {
+				for {
+					switch v := e.(type) {
+					case *ast.Ident:
+						return v
+					case *ast.SelectorExpr:
+						e = v.X
+					case *ast.IndexExpr:
+						e = v.X
+					case *ast.StarExpr:
+						e = v.X
+					case *ast.ParenExpr:
+						e = v.X
+					default:
+						return nil
+					}
+				}
+			}
+			visit = func(where string, body ast.Node, recv string, captured map[string]bool, params map[string]bool) {
+				// names declared inside the body shadow package-level ones
+				local := map[string]bool{}
+				for k := range params {
+					local[k] = true
+				}
+				ast.Inspect(body, func(n ast.Node) bool {
+					switch v := n.(type) {
+					case *ast.AssignStmt:
+						if v.Tok == token.DEFINE {
+							for _, l := range v.Lhs {
+								if id, ok := l.(*ast.Ident); ok {
+									local[id.Name] = true
+								}
+							}
+						}
+					case *ast.ValueSpec:
+						for _, id := range v.Names {
+							local[id.Name] = true
+						}
+					case *ast.RangeStmt:
+						for _, e := range []ast.Expr{v.Key, v.Value} {
+							if id, ok := e.(*ast.Ident); ok && v.Tok == token.DEFINE {
+								local[id.Name] = true
+							}
+						}
+					}
+					return true
+				})
+				// identifiers that are field names, not variables
+				skip := map[*ast.Ident]bool{}
+				ast.Inspect(body, func(n ast.Node) bool {
+					switch v := n.(type) {
+					case *ast.SelectorExpr:
+						skip[v.Sel] = true
+					case *ast.KeyValueExpr:
+						if id, ok := v.Key.(*ast.Ident); ok {
+							skip[id] = true
+						}
+					}
+					return true
+				})
+				store := func(l ast.Expr) {
+					id := rootIdent(l)
+					if id == nil || id.Name == "_" {
+						return
+					}
+					_, plain := l.(*ast.Ident)
+					switch {
+					case !local[id.Name] && pkgVars[id.Name]:
+						shared = append(shared, where+": store "+x.src(l))
+					case id.Name == recv && recv != "" && !plain:
+						shared = append(shared, where+": store "+x.src(l))
+					case captured[id.Name] && !local[id.Name]:
+						shared = append(shared, where+": store "+x.src(l))
+					}
+				}
+				ast.Inspect(body, func(n ast.Node) bool {
+					switch v := n.(type) {
+					case *ast.AssignStmt:
+						if v.Tok != token.DEFINE {
+							for _, l := range v.Lhs {
+								store(l)
+							}
+						}
+					case *ast.IncDecStmt:
+						store(v.X)
+					case *ast.Ident:
+						// a package-level variable read, called or passed on
+						if !skip[v] && !local[v.Name] && pkgVars[v.Name] {
+							shared = append(shared, where+": use "+v.Name)
+						}
+					case *ast.CallExpr:
+						// follow unexported helpers of the package, once each
+						var name, r string
+						switch f := v.Fun.(type) {
+						case *ast.Ident:
+							name = f.Name
+						case *ast.SelectorExpr:
+							if id, ok := f.X.(*ast.Ident); ok && id.Name == recv && recv != "" {
+								name, r = f.Sel.Name, "GrpcProxyInterceptor"
+							}
+						}
+						if name != "" && !ast.IsExported(name) && !seenFn[r+"."+name] {
+							for _, f := range x.files(dir) {
+								for _, d := range f.Decls {
+									fd, ok := d.(*ast.FuncDecl)
+									if !ok || fd.Name.Name != name || fd.Body == nil || (fd.Recv == nil) != (r == "") {
+										continue
+									}
+									seenFn[r+"."+name] = true
+									rn := ""
+									if fd.Recv != nil && len(fd.Recv.List) == 1 && len(fd.Recv.List[0].Names) == 1 {
+										rn = fd.Recv.List[0].Names[0].Name
+									}
+									ps := map[string]bool{}
+									for _, fl := range fd.Type.Params.List {
+										for _, id := range fl.Names {
+											ps[id.Name] = true
+										}
+									}
+									if rn != "" {
+										ps[rn] = true
+									}
+									visit(name, fd.Body, rn, nil, ps)
+								}
+							}
+						}
+					}
+					return true
+				})
+			}
+			if fd := x.funcDecl(dir, "GrpcProxyInterceptor", "Stream"); fd != nil && fd.Body != nil {
+				rn := ""
+				if len(fd.Recv.List) == 1 && len(fd.Recv.List[0].Names) == 1 {
+					rn = fd.Recv.List[0].Names[0].Name
+				}
+				ps := map[string]bool{rn: true}
+				for _, fl := range fd.Type.Params.List {
+					for _, id := range fl.Names {
+						ps[id.Name] = true
+					}
+				}
+				seenFn["GrpcProxyInterceptor.Stream"] = true
+				visit("Stream", fd.Body, rn, nil, ps)
+			}
+			if fd := x.funcDecl(dir, "", "GetGRPCDirector"); fd != nil && fd.Body != nil {
+				// the closure the function returns, and what it captures from the enclosing function
+				captured := map[string]bool{}
+				for _, fl := range fd.Type.Params.List {
+					for _, id := range fl.Names {
+						captured[id.Name] = true
+					}
+				}
+				found := 0
+				ast.Inspect(fd.Body, func(n ast.Node) bool {
+					switch v := n.(type) {
+					case *ast.AssignStmt:
+						if v.Tok == token.DEFINE {
+							for _, l := range v.Lhs {
+								if id, ok := l.(*ast.Ident); ok {
+									captured[id.Name] = true
+								}
+							}
+						}
+					case *ast.FuncLit:
+						found++
+						ps := map[string]bool{}
+						for _, fl := range v.Type.Params.List {
+							for _, id := range fl.Names {
+								ps[id.Name] = true
+								delete(captured, id.Name)
+							}
+						}
+						visit("director", v.Body, "", captured, ps)
+						return false
+					}
+					return true
+				})
+				if found != 1 {
+					x.fail("GetGRPCDirector: expected one function literal, found %d", found)
+				}
+			}
+			sort.Strings(shared)
+			x.defStrList("callPathSharedState", shared)
+		}
+
 		// --- main.newGrpcProxy: what the harness replicates -------------------------------------------------
 		if fd := x.funcDecl(".", "", "newGrpcProxy"); fd != nil {
 			w := newC16Walk(x, ".")
